@@ -493,6 +493,8 @@ def bip38_decrypt(encrypted_privkey, password):
         else:
             owner_salt: bytes = owner_entropy
 
+        if isinstance(password, str):
+            password = unicodedata.normalize('NFC', password)
         pass_factor = scrypt_hash(password, owner_salt, 32, 16384, 8, 8)
         if lot_and_sequence:
             pass_factor: bytes = double_sha256(pass_factor + owner_entropy)
@@ -560,7 +562,7 @@ def bip38_decrypt(encrypted_privkey, password):
         else:
             raise EncodingError("Unrecognised password protected key format. Flagbyte incorrect.")
         if isinstance(password, str):
-            password = password.encode('utf-8')
+            password = unicodedata.normalize('NFC', password).encode('utf-8')
         addresshash = d[0:4]
         d = d[4:-4]
 
@@ -601,7 +603,7 @@ def bip38_encrypt(private_hex, address, password, flagbyte=b'\xe0'):
     if isinstance(address, str):
         address = address.encode('utf-8')
     if isinstance(password, str):
-        password = password.encode('utf-8')
+        password = unicodedata.normalize('NFC', password).encode('utf-8')
     addresshash = double_sha256(address)[0:4]
     key = scrypt_hash(password, addresshash, 64, 16384, 8, 8)
     derivedhalf1 = key[0:32]
